@@ -31,6 +31,7 @@ func isStringType(t types.Type) bool {
 
 func (e *Engine) mapKey(st *State, mt *types.Map, ref *Term, k Value) []*Term {
 	if isStringType(mt.Key()) {
+		e.strKeysUsed = true
 		return []*Term{ref, e.strID(st, k.T)}
 	}
 	return append([]*Term{ref}, e.flat(k, mt.Key())...)
@@ -137,6 +138,8 @@ func (e *Engine) mapRead(st *State, t types.Type, ref *Term, k Value) (ok *Term,
 		val[i] = Ite(ok, raw[i], zs[i])
 	}
 	st.assume(Implies(ok, wfAssumptions(raw, mt.Elem(), true)))
+	// a map holding a key is not empty
+	st.assume(Implies(ok, BVSle(BVConst(1, IntSort), e.mapLen(st, t, ref))))
 	return
 }
 
@@ -202,12 +205,38 @@ type iterInfo struct {
 	isMap bool
 	t     types.Type
 	x     Value
+	len0  *Term // map length at range start, when it bounds the iteration count
+}
+
+func fnUpdatesMap(fn *ssa.Function, t types.Type) bool {
+	for _, b := range fn.Blocks {
+		for _, in := range b.Instrs {
+			switch u := in.(type) {
+			case *ssa.MapUpdate:
+				if types.Identical(u.Map.Type().Underlying(), t.Underlying()) {
+					return true
+				}
+			case ssa.CallInstruction:
+				if _, isBuiltin := u.Common().Value.(*ssa.Builtin); !isBuiltin {
+					return true // a callee might insert
+				}
+			}
+		}
+	}
+	return false
 }
 
 func (e *Engine) rangeInit(fr *Frame, st *State, x *ssa.Range) {
 	v := e.val(fr, x.X)
 	if _, ok := x.X.Type().Underlying().(*types.Map); ok {
-		fr.iters[x] = &iterInfo{isMap: true, t: x.X.Type(), x: v}
+		it := &iterInfo{isMap: true, t: x.X.Type(), x: v}
+		// without insertions into a map of this type in the function, the loop visits at most
+		// len(m) entries (entries deleted during the iteration are not visited)
+		if !fnUpdatesMap(x.Parent(), x.X.Type()) {
+			it.len0 = e.mapLen(st, x.X.Type(), v.term())
+		}
+		fr.iters[x] = it
+		st.ghost[iterKey(fr, x)+".n"] = BVConst(0, IntSort)
 		fr.regs[x] = Value{T: []*Term{BVConst(0, RefSort)}}
 		return
 	}
@@ -275,6 +304,16 @@ func (e *Engine) rangeNext(fr *Frame, st *State, x *ssa.Next) {
 	// ok => key is in the map (as it is now: Go permits deletion during iteration)
 	st.assume(Implies(ok, present))
 	st.assume(Implies(ok, Neq(ref, BVConst(0, RefSort))))
+	nkey := iterKey(fr, x.Iter.(*ssa.Range)) + ".n"
+	cnt, has := st.ghost[nkey]
+	if !has {
+		cnt = FreshVar("iter.n", IntSort)
+	}
+	st.assume(BVSle(BVConst(0, IntSort), cnt))
+	if it.len0 != nil {
+		st.assume(Implies(ok, BVSlt(cnt, it.len0)))
+	}
+	st.ghost[nkey] = Ite(ok, BVAdd(cnt, BVConst(1, IntSort)), cnt)
 	ts := []*Term{ok}
 	tt := x.Type().(*types.Tuple)
 	if nLeaves(tt.At(1).Type()) > 0 {
